@@ -16,6 +16,7 @@ from checks.ctxcomp import Mod, Feat, Sub, History, Snap
 
 LEAN_TARGETS = ["LyModel.Props.C09"]
 AUDIT = "Audit/C09.lean"
+GENERATED = ["CtxFacts"]
 ASSUMPTIONS = [
     "module contents are abstract in the model (ModSrc): which stage refuses an edited module, and with which LY_ERR, is supplied by the generator "
     "(tools/checks/ctxcomp.py: apply_edit) and checked against libyang on every case",
